@@ -6,8 +6,8 @@ Domain : histories over a small universe - 6 paths (two with the same basename i
          .codelimit.yml / root .gitignore), replace the cache by one from another version (same document with another / no / null version,
          perturbed measurements), alter cache entries (drop an entry, add an entry for a missing path, change a checksum,
          move an entry to another path), scan. Hypothesis rule-based state machine (histories up to 25 / 50 steps) plus
-         bounded-exhaustive enumeration of all operation sequences up to length 2 (thorough 3) followed by a scan, with
-         and without a scan in between.
+         bounded-exhaustive enumeration of all operation sequences up to length 2 (thorough 3) followed by a scan, those of
+         length 2 also with a scan in between.
 Oracle : after every scan: the cache the scan wrote == a from-scratch scan_path of the same tree in the same
          configuration (uuid / timestamp dropped, files as a mapping, folder entries sorted); the set of paths handed to
          Scanner._analyze_file (wrapped) contains every file whose (path, bytes) is not in the cache as written by the
@@ -390,7 +390,7 @@ def enum_sequences(col, tier, part, nparts, length):
     idx = 0
     n = nt = 0
     for seq in itertools.product(ops, repeat=length):
-        for mid_scan in ((False, True) if length >= 2 else (False,)):
+        for mid_scan in ((False, True) if length == 2 else (False,)):
             idx += 1
             if idx % nparts != part:
                 continue
